@@ -57,6 +57,7 @@ type convOutcome struct {
 	PrefixModels []any
 	Final        any    // model after the whole script (Cisco)
 	Stderr       string // of a run that rejected the pair
+	SecondScript string // script of a second compare that was not clean
 	// live runs: what the simulator observed
 	LiveCommands, LiveJoined, LiveNotices, LiveCompares int
 }
@@ -213,6 +214,7 @@ func convNSX(env *run.Env, g *genCase, o *convOutcome, changed, wantPrefixes boo
 	r2 := runPair(env, pc, false)
 	if r2.Exit != 0 || r2.Stdout != "" || !strings.Contains(r2.Stderr, "comp: device unchanged") {
 		o.Conv = &clause{"second-compare-not-clean:" + scriptShape(r2.Stdout), firstLines(r2.Stdout+r2.Stderr, 4)}
+		o.SecondScript = r2.Stdout
 	}
 }
 
